@@ -339,3 +339,63 @@ Fixpoint resolve (K : lkeys) (p : pending) (base : sset) : option sset :=
   | [] => Some base
   | o :: r => match apply K o base with Ok s => resolve K r s | Fail _ => None end
   end.
+
+(* ---------- code shape of the sorted selections ----------
+   slice:  record[np.argsort(record[sorted_by])[selector]]
+   first:  next(self.data(sorted_by='energy'))  - the row at position argsort(energy)[0]
+   `order` is whatever np.argsort returned; the mirrored stable argsort (kind='stable', which
+   SampleSet.data(index=True) asks for) is an insertion sort of (position, key) pairs *)
+Fixpoint pinsert (x : nat * Qc) (l : list (nat * Qc)) : list (nat * Qc) :=
+  match l with [] => [x] | y :: r => if qle (snd x) (snd y) then x :: l else y :: pinsert x r end.
+Fixpoint psort (l : list (nat * Qc)) : list (nat * Qc) :=
+  match l with [] => [] | x :: r => pinsert x (psort r) end.
+Definition argsort_stable (keys : list Qc) : list nat := map fst (psort (combine (seq 0 (length keys)) keys)).
+
+Definition slice_sorted_code (order idx : list nat) (rows : list row) : list row :=
+  select rows (map (fun j => nth j order 0%nat) idx).
+Definition first_code (order : list nat) (rows : list row) : option row :=
+  match order with [] => None | i :: _ => Some (nth i rows rowz) end.
+
+(* ---------- future-backed sample sets as a two-handle state machine ----------
+   A call on a sample set returns a handle; for an unresolved receiver the code either composes a
+   hook on the receiver itself (relabel_variables in place) or wraps the receiver in a NEW
+   unresolved sample set whose hook applies the operation when IT is resolved
+   (relabel_variables(inplace=False), change_vartype(inplace=True)); change_vartype(inplace=False)
+   resolves the receiver first (self.copy()).  `dstate` is what a handle is: resolved, or the hooks
+   still to be applied to the future's result. *)
+Inductive dstate := DResolved (s : sset) | DPending (hooks : list op).
+
+Definition dresolve (K : lkeys) (base : sset) (d : dstate) : option sset :=
+  match d with DResolved s => Some s | DPending hooks => resolve K hooks base end.
+
+Inductive dcall := DRelabel (m : list (label * label)) (inplace : bool) | DChangeVt (v : vartype) (off : Qc) (inplace : bool).
+Definition dcall_op (c : dcall) : op :=
+  match c with DRelabel m _ => ORelabel m | DChangeVt v off inpl => OChangeVt v off inpl end.
+Definition dcall_inplace (c : dcall) : bool := match c with DRelabel _ b => b | DChangeVt _ _ b => b end.
+
+(* one call on a handle whose future has result `base` (used only by the calls that resolve):
+   (receiver afterwards, returned handle); None = raised *)
+Definition dstep (K : lkeys) (base : sset) (c : dcall) (d : dstate) : option (dstate * dstate) :=
+  match d with
+  | DResolved s =>
+      match apply K (dcall_op c) s with
+      | Ok s' => if dcall_inplace c then Some (DResolved s', DResolved s') else Some (DResolved s, DResolved s')
+      | Fail _ => None
+      end
+  | DPending hooks =>
+      match c with
+      | DRelabel m true => Some (DPending (hooks ++ [ORelabel m]), DPending (hooks ++ [ORelabel m]))
+      | DRelabel m false => Some (DPending hooks, DPending (hooks ++ [ORelabel m]))
+      (* as the code is: a new wrapper is returned and the receiver keeps its hooks *)
+      | DChangeVt v off true => Some (DPending hooks, DPending (hooks ++ [OChangeVt v off true]))
+      (* self.copy() resolves the receiver *)
+      | DChangeVt v off false =>
+          match resolve K hooks base with
+          | Some s => match apply K (OChangeVt v off false) s with
+                      | Ok s' => Some (DResolved s, DResolved s')
+                      | Fail _ => None
+                      end
+          | None => None
+          end
+      end
+  end.
